@@ -81,6 +81,10 @@ EXTRA = [
     # root options of the default root (no FROM), the first option in every spelling
     'name symlinks', 'name , size archives', 'name gitignore depth 2', 'name hgignore', 'name dockerignore dfs', 'name depth 2', 'name mindepth 1 maxdepth 2',
     'name dfs', 'name nogitignore symlinks', 'name , size symlinks where size > 1 order by 1',
+    'name dock', 'name nodock symlinks', 'name , size git', 'name hg depth 2', 'name nogit', 'name nohg dfs', 'name arc', 'name sym',
+    # an argument-less function (with or without its empty brackets) as the operand of every arithmetic operator
+    'name , current_uid * 0 from . limit 2', 'name , current_gid % 1 , current_uid / 1 from . limit 2', 'name from . where current_uid * 0 = 0 limit 2',
+    'name , current_uid + 1 , current_uid - 1 from . limit 2', 'name from . order by current_uid * 0 , name limit 2',
     'name from su.* regexp', 'name from [s]ub maxdepth 1 regexp', 'name , size from e , su.* regexp dfs where name regexp ^a order by 1',
 ]
 
@@ -194,12 +198,17 @@ def alias_renderings(q, tier):
     fams = OP_ALIASES + ARITH_ALIASES + COL_ALIASES + FUNC_ALIASES + OPT_ALIASES
     subs = []   # (position, new token list replacing q[pos:pos+k], k)
     in_from = False
+    no_from = 'from' not in [t_.lower() for t_ in q]
+    closed = False
     for i, tok in enumerate(q):
         t = tok.lower()
         if t == 'from':
             in_from = True
         elif t in ('where', 'order', 'group', 'limit', 'into'):
             in_from = False
+            closed = True
+        elif no_from and not closed and i > 0 and (any(t in fam for fam in OPT_ALIASES[:-1]) or t in ('mindepth', 'bfs', 'dfs')):
+            in_from = True      # the options of the default root begin where the select list ends
         for fam in fams:
             for a in fam:
                 if ' ' in a:
@@ -322,7 +331,12 @@ def optional_renderings(q):
     for fn in ('current_date', 'cur_date', 'curdate', 'current_uid', 'current_user', 'current_gid', 'current_group'):
         for i, t in enumerate(q):
             if t.lower() == fn:
-                yield [' '.join(q[:i] + [t + '()'] + q[i + 1:])], 'noarg-brackets'
+                for br in ('()', '{}', '( )', '{ }'):
+                    yield [' '.join(q[:i] + [t + br] + q[i + 1:])], 'noarg-brackets'
+                    yield q[:i] + [t + br] + q[i + 1:], 'noarg-brackets'
+                    if i + 2 < len(q) and not q[i + 1][0].isalnum() and q[i + 1] != ',':
+                        # the operator glued to the closing bracket and to its right operand
+                        yield [' '.join(q[:i] + [t + br + q[i + 1] + q[i + 2]] + q[i + 3:])], 'noarg-brackets'
             if t.lower() == fn + '()':
                 yield [' '.join(q[:i] + [t[:-2]] + q[i + 1:])], 'noarg-brackets'
 
